@@ -271,9 +271,10 @@ type svcEvent struct {
 }
 
 type slot struct {
-	key     int
-	live    bool
-	plugins bool
+	key      int
+	live     bool
+	creating bool
+	plugins  bool
 }
 
 type svcClient struct {
@@ -632,22 +633,38 @@ func (s *svcClient) runOp(op SvcOp) {
 			s.problem("build key %d (plugins) never received a response", key)
 		}
 	case "ctx":
+		// A key may be used only after the response to the request that created it has arrived (the real host
+		// has no handle before that); creation is therefore bracketed like an operation the closer must wait for.
+		if !s.enterCB() {
+			return
+		}
+		defer s.leaveCB()
 		s.mu.Lock()
 		sl := &s.slots[op.Slot%3]
-		if sl.live {
+		if sl.live || sl.creating {
 			s.mu.Unlock()
 			return
 		}
 		s.nextKey++
 		key := s.nextKey
-		*sl = slot{key: key, live: true, plugins: op.Plugins}
+		*sl = slot{creating: true}
 		s.mu.Unlock()
 		r, e := s.request("build", key, s.buildRequest(key, true, op.Plugins))
+		created := false
 		if l, ok := r["errors"].([]interface{}); e == "" && (!ok || len(l) > 0) {
 			bad("context", key, r, "context creation failed")
 		} else if e == "no-response" {
 			s.problem("context key %d never received a response", key)
+		} else if e == "" {
+			created = true
 		}
+		s.mu.Lock()
+		if created {
+			*sl = slot{key: key, live: true, plugins: op.Plugins}
+		} else {
+			*sl = slot{}
+		}
+		s.mu.Unlock()
 	case "rebuild", "cancel", "dispose":
 		s.mu.Lock()
 		sl := &s.slots[op.Slot%3]
